@@ -8,7 +8,7 @@ RULE = (
     "schemas of 1-4 value-kind rules over the full callable set (plain, length and dtype pre-processed) with "
     "WELL-TYPED, non-degenerate arguments, casts in {none, str->bool, str->int} (45% of rules), every path shape "
     "(empty path, str/int/float/bool keys, None keys through map parts, list indices, fan-out), on hostile documents "
-    "(zeros, None, %-strings, empty containers, missing branches, uncastable strings, castable strings inside lists "
+    "(zeros, None, %-format strings incl. %c with divisors on both sides of chr()'s range, empty containers, missing branches, uncastable strings, castable strings inside lists "
     "and under non-string keys). Oracle: Schema.validate and Rule.test return result objects (is_valid bool, "
     "num_failures int, failure report a str); any escaping exception is a violation bucketed by (type, innermost "
     "valida frame). Non-trivial: the reference says at least one selected node is undefined for the rule's comparison "
